@@ -371,10 +371,12 @@ where
             .iter()
             .position(|i| i == &r1)
             .wrap_err("couldn't find reactant in population")?;
+        // Equal individuals are distinct molecules: look for the second reactant elsewhere.
         let r2_idx = populations
             .current()
             .iter()
-            .position(|i| i == &r2)
+            .enumerate()
+            .position(|(idx, i)| idx != r1_idx && i == &r2)
             .wrap_err("couldn't find reactant in population")?;
         ensure!(
             r1_idx != r2_idx,
@@ -478,7 +480,13 @@ where
             .map_err(|_| eyre!("expected two individuals as products"))?;
 
         let r1_idx = populations.current().iter().position(|i| i == &r1).unwrap();
-        let r2_idx = populations.current().iter().position(|i| i == &r2).unwrap();
+        // Equal individuals are distinct molecules: look for the second reactant elsewhere.
+        let r2_idx = populations
+            .current()
+            .iter()
+            .enumerate()
+            .position(|(idx, i)| idx != r1_idx && i == &r2)
+            .wrap_err("couldn't find reactant in population")?;
         ensure!(
             r1_idx != r2_idx,
             "the same molecule can't be used as two reactants"
